@@ -12,7 +12,9 @@ CONSTANTS
   MaxCrash = 0
   AllowWindow = TRUE
   StartStates = {"empty", "data"}
+  OtherAtStart = {FALSE}
+  OnlyOnce = FALSE
 SPECIFICATION Spec
-INVARIANTS TypeOK NoLocalLoss
-PROPERTIES CommittedOnlyAfterStore LSNeverBackwards NoEchoUpload NoUploadBeforeOwnMerged BucketMonotone
+INVARIANTS TypeOK NoLocalLoss ReadyMeansLoaded ReadyMeansPublished ExitOnlyWhenDone
+PROPERTIES CommittedOnlyAfterStore LSNeverBackwards NoEchoUpload NoUploadBeforeOwnMerged BucketMonotone ReadyStable
 CHECK_DEADLOCK FALSE
